@@ -1,9 +1,11 @@
 import PolyVerif.Lemmas.SeqhashSpec
+import PolyVerif.Props.C12Booth
 /-
 C05 — Seqhash separates distinct molecules and follows the published v1 form.
 
-Stated over `hashSpec` (the model of `seqhash.Hash` with the arg-min least rotation, i.e. modulo
-C12) for EVERY digest function; collision-freeness of the digest is the explicit HYPOTHESIS
+Stated over `hashSpec` (the model of `seqhash.Hash` with the arg-min least rotation) for EVERY
+digest function, then transferred to `hash` (rotation step = the Booth loop of the code) through
+C12's `booth_least` (`model_hash_*` near the end); collision-freeness of the digest is the explicit HYPOTHESIS
 `Function.Injective blake` of the separation theorems (satisfiable: see the toy digest at the
 end), never an axiom.  The rejection theorems hold for every rotation function (`hashWith rot`),
 hence also for the Booth-loop model.
@@ -241,6 +243,51 @@ theorem err_iff (blake : List UInt8 → List UInt8) (s : Str) (ty : String) (c d
     rw [hashSpec_ok _ _ _ _ _ ha] at e
     cases e
   · exact hashSpec_err blake s ty c d
+
+/-! ### the same for the model of the code itself
+
+`Seqhash.hash` has the Booth loop as its rotation step; C12 (`Props/C12Booth.booth_least`) proves it
+equal to the arg-min, so `hash = hashSpec` and nothing is left "modulo C12". -/
+
+theorem hash_model_eq_spec : Seqhash.hash = Seqhash.hashSpec := Props.C12Booth.hash_eq_hashSpec
+
+theorem model_hash_inj {blake : List UInt8 → List UInt8} (hb : Function.Injective blake)
+    {a b : Str} {ta tb : String} {ca da cb db : Bool} {h : Str}
+    (hcl : da = true → Iupac15 (norm ta a) ∧ Iupac15 (norm tb b))
+    (h₁ : Seqhash.hash blake a ta ca da = .ok h) (h₂ : Seqhash.hash blake b tb cb db = .ok h) :
+    ta = tb ∧ ca = cb ∧ da = db ∧ SameMolecule (norm ta a) (norm tb b) ca da := by
+  rw [hash_model_eq_spec] at h₁ h₂; exact hash_inj hb hcl h₁ h₂
+
+theorem model_hash_inj_general {blake : List UInt8 → List UInt8} (hb : Function.Injective blake)
+    {a b : Str} {ta tb : String} {ca da cb db : Bool} {h : Str}
+    (h₁ : Seqhash.hash blake a ta ca da = .ok h) (h₂ : Seqhash.hash blake b tb cb db = .ok h) :
+    ta = tb ∧ ca = cb ∧ da = db ∧
+      ∃ x ∈ strands da (norm ta a), ∃ y ∈ strands da (norm tb b), SameUpToRotation ca x y := by
+  rw [hash_model_eq_spec] at h₁ h₂; exact hash_inj_general hb h₁ h₂
+
+theorem model_hash_same_molecule (blake : List UInt8 → List UInt8) {a b : Str} {ty : String} {c d : Bool}
+    (ha : Accepted ty d (norm ty a)) (hb : Accepted ty d (norm ty b))
+    (hcl : d = true → Iupac15 (norm ty b))
+    (h : SameMolecule (norm ty a) (norm ty b) c d) :
+    Seqhash.hash blake a ty c d = Seqhash.hash blake b ty c d := by
+  rw [hash_model_eq_spec]; exact hash_same_molecule blake ha hb hcl h
+
+theorem model_hash_form (blake : List UInt8 → List UInt8) (s : Str) (ty : String) (c d : Bool)
+    (h : Accepted ty d (norm ty s)) :
+    Seqhash.hash blake s ty c d =
+      .ok ("v1_".toList ++ tag ty c d ++ ['_'] ++ hex (blake (bytes (canonSpec (norm ty s) c d)))) := by
+  rw [hash_model_eq_spec]; exact hash_form blake s ty c d h
+
+theorem model_hex_len (blake : List UInt8 → List UInt8) (hlen : ∀ x, (blake x).length = 32)
+    {s : Str} {ty : String} {c d : Bool} {h : Str} (e : Seqhash.hash blake s ty c d = .ok h) :
+    h.length = 71 ∧ h.take 7 = "v1_".toList ++ tag ty c d ++ ['_'] ∧
+      (h.drop 7).length = 64 ∧ ∀ x ∈ h.drop 7, x ∈ "0123456789abcdef".toList := by
+  rw [hash_model_eq_spec] at e; exact hex_len blake hlen e
+
+/-- the model of the code never panics: it returns a value or the error -/
+theorem model_hash_err_iff (blake : List UInt8 → List UInt8) (s : Str) (ty : String) (c d : Bool) :
+    Seqhash.hash blake s ty c d = .err ↔ ¬ Accepted ty d (norm ty s) := by
+  rw [hash_model_eq_spec]; exact err_iff blake s ty c d
 
 /-! ### non-vacuity -/
 
